@@ -208,6 +208,7 @@ def check_symbolic():
     cases = {
         "free": (lambda q, a, b: (ops.Sgate(a, b) | q[0], ops.BSgate(a * 2, b - 0.1) | (q[0], q[1]), ops.Pgate(a) | q[1])),
         "functions": (lambda q, a, b: (ops.Dgate(pf.sqrt(a * a + 0.01), pf.atan2(b, a)) | q[0], ops.Rgate(pf.sin(a) * 2) | q[0], ops.CXgate(a - b) | (q[0], q[1]))),
+        "homodyne-angle": (lambda q, a, b: (ops.S2gate(0.4) | (q[0], q[1]), ops.MeasureHomodyne(a * 2, select=0.3) | q[0], ops.Rgate(b) | q[1])),
         "mergeable": (lambda q, a, b: (ops.Rgate(a) | q[0], ops.Rgate(b) | q[0], ops.Sgate(a) | q[1], ops.Sgate(b).H | q[1], ops.BSgate(0.3, 0.1) | (q[0], q[1]))),
     }
     vals = {"a": 0.37, "b": -0.21}
@@ -232,6 +233,20 @@ def check_symbolic():
                     continue
                 if not np.allclose(rs, rn, atol=tol):
                     bad(f"C10 {backend} {name} {co}: symbolic program gives {np.round(rs, 4).tolist()}, substituted program {np.round(rn, 4).tolist()}")
+                    continue
+                # the SAME program object bound to other values and run again (fresh engine): the symbols stand for the new values
+                vals2 = {"a": -0.52, "b": 0.44}
+                pn2 = sf.Program(2)
+                with pn2.context as q:
+                    build(q, vals2["a"], vals2["b"])
+                try:
+                    rs2 = obs(sf.Engine(backend, backend_options=kw).run(ps, args=vals2, compile_options=dict(co)).state, 2)
+                    rn2 = obs(sf.Engine(backend, backend_options=kw).run(pn2, compile_options=dict(co)).state, 2)
+                except Exception as e:
+                    bad(f"C10 {backend} {name} {co}: re-running with new bindings raised {type(e).__name__}: {e}")
+                    continue
+                if not np.allclose(rs2, rn2, atol=tol):
+                    bad(f"C10 {backend} {name} {co}: the same program re-run with a = {vals2['a']}, b = {vals2['b']} gives {np.round(rs2, 4).tolist()}, the substituted program {np.round(rn2, 4).tolist()}")
         # unbound parameter -> ParameterError
         EVAL[0] += 1
         pu_ = sf.Program(1)
